@@ -208,6 +208,14 @@ func (g *Gen) noteCall(c *ssa.CallCommon, in ssa.Instruction, res *Val, prefix s
 			s.ghost["$ok:"+name] = "true"
 		}
 		s.ghost["$count:"+name] = sx("+", g.ghostTerm(s, "$count:"+name), "1")
+		for _, sn := range g.sinces {
+			gn := "$since:" + sn[0] + "|" + sn[1]
+			if sn[1] == name {
+				s.ghost[gn] = "0"
+			} else if sn[0] == name {
+				s.ghost[gn] = sx("+", g.ghostTerm(s, gn), "1")
+			}
+		}
 		if res != nil {
 			rs := res.Tuple
 			if rs == nil && res.T != "" {
@@ -362,8 +370,46 @@ func (g *Gen) execCallPrefixed(c *ssa.CallCommon, in ssa.Instruction, rt types.T
 			g.setHeap(g.cur, k.t.Comp, store(h, k.t.Ref, k.val))
 		}
 	}
+	g.applyMonitors(c)
 	g.noteCall(c, in, res, prefix)
 	return res
+}
+
+// applyMonitors: after acquiring a mutex field named in a //verif:monitor clause,
+// the guarded fields of the same object hold arbitrary values.
+func (g *Gen) applyMonitors(c *ssa.CallCommon) {
+	if g.con == nil || len(g.con.Monitors) == 0 || c.IsInvoke() || len(c.Args) == 0 {
+		return
+	}
+	f := c.StaticCallee()
+	if f == nil || (f.Name() != "Lock" && f.Name() != "RLock") {
+		return
+	}
+	mname, base := fieldNameOfAddr(c.Args[0])
+	if mname == "" {
+		return
+	}
+	for _, m := range g.con.Monitors {
+		if m.Mutex != mname {
+			continue
+		}
+		st := base.Type().Underlying().(*types.Pointer).Elem()
+		u := st.Underlying().(*types.Struct)
+		ref := g.val(base).T
+		for _, fn := range m.Fields {
+			idx, _, _ := findField(u, fn)
+			if idx < 0 {
+				g.fail("monitor: type %s has no field %s", typeKey(st), fn)
+			}
+			loc, sub, ft := g.fieldOf(ref, st, idx)
+			if sub != "" {
+				g.fail("monitor: guarded field %s must be a scalar field", fn)
+			}
+			hv := g.havocVal(ft, "mon."+fn)
+			g.writeLoc(g.cur, loc, hv.T)
+		}
+		g.assumptions = appendUnique(g.assumptions, fmt.Sprintf("%s: fields %v are only accessed while holding .%s (monitor discipline assumed for other goroutines)", g.fnName, m.Fields, m.Mutex))
+	}
 }
 
 func isBuiltin(c *ssa.CallCommon) bool {
